@@ -75,11 +75,11 @@ structure StoredAs (q : Page) (pageType : Nat) (p : Page) : Prop where
   raw : q.raw = p.raw
   subno : ∀ key mask, putKey pageType p.pgno p.subno = (key, mask) → q.subno = key
 
-theorem cachePut_head_aux (c : List Page) (pt : Nat) (p : Page) (h : p.pgno &&& 0xFF ≠ 0xFF) :
-    ∃ q rest, cachePut c pt p = some (q :: rest) ∧ q.function = p.function ∧ q.pgno = p.pgno
+theorem cachePutF_head_aux (fix : Bool) (c : List Page) (pt : Nat) (p : Page) (h : p.pgno &&& 0xFF ≠ 0xFF) :
+    ∃ q rest, cachePutF fix c pt p = some (q :: rest) ∧ q.function = p.function ∧ q.pgno = p.pgno
       ∧ q.national = p.national ∧ q.flags = p.flags ∧ q.raw = p.raw
       ∧ ∀ key mask, putKey pt p.pgno p.subno = (key, mask) → q.subno = key := by
-  unfold cachePut
+  unfold cachePutF
   rw [if_neg (by simpa using h)]
   generalize putKey pt p.pgno p.subno = k
   obtain ⟨a, b⟩ := k
@@ -88,6 +88,12 @@ theorem cachePut_head_aux (c : List Page) (pt : Nat) (p : Page) (h : p.pgno &&& 
   intro key mask hkm
   cases hkm
   rfl
+
+theorem cachePut_head_aux (c : List Page) (pt : Nat) (p : Page) (h : p.pgno &&& 0xFF ≠ 0xFF) :
+    ∃ q rest, cachePut c pt p = some (q :: rest) ∧ q.function = p.function ∧ q.pgno = p.pgno
+      ∧ q.national = p.national ∧ q.flags = p.flags ∧ q.raw = p.raw
+      ∧ ∀ key mask, putKey pt p.pgno p.subno = (key, mask) → q.subno = key :=
+  cachePutF_head_aux _ c pt p h
 
 /-- `cachePut` puts the stored page at the head of the chain -/
 theorem cachePut_head (c : List Page) (pt : Nat) (p : Page) (h : p.pgno &&& 0xFF ≠ 0xFF) :
